@@ -1,9 +1,9 @@
 #!/bin/bash
-# recorded evaluation of the round-3 seeds: each change is applied to /repo, the quick tier of its own property's check runs, /repo is reverted
-mkdir -p /verif/.scratch/seed3
-for d in /tmp/wt3/C*.out/a /tmp/wt3/C*.out/b; do
+# recorded evaluation of the seeds of a round (WT=/tmp/wt4 ROUND=seed4 by default): each change is applied to /repo, the quick tier of its own property's check runs, /repo is reverted
+mkdir -p /verif/.scratch/${ROUND:-seed4}
+for d in ${WT:-/tmp/wt4}/C*.out/a ${WT:-/tmp/wt4}/C*.out/b; do
   [ -f $d/patch.diff ] || continue
-  id=$(echo $d | sed 's#/tmp/wt3/\(C[0-9]*\).out/.*#\1#')
+  id=$(basename $(dirname $d) .out)
   echo "=== $d"
   /verif/tools/run_seed.sh $d/patch.diff $id "$@" 2>&1
 done
